@@ -15,6 +15,9 @@ for p in props:
         na.append({"property_id": pid, "reason": NA.get(pid, "check not built yet (build in progress)")})
         continue
     m = importlib.import_module(f"vf.props.{pid.lower()}")
+    if not hasattr(m, "MANIFEST"):
+        na.append({"property_id": pid, "reason": "check not integrated yet (build in progress)"})
+        continue
     mf = m.MANIFEST
     eng = getattr(m, "ENGINE", "symex")
     serves[eng].append(pid)
